@@ -2,6 +2,7 @@ import LitexProofs.WaitTimer
 import LitexProofs.Timeout.Wb
 import LitexProofs.Timeout.Axi
 import LitexProofs.Timeout.BusErr
+import LitexModel.Timeout.AxiXbar
 /-
   C11 — A silent or absent slave cannot hang the bus.
 
@@ -919,5 +920,52 @@ theorem wb_crossbar_hangs_forever (c : Wb.Cfg) (xs : List BusIn)
     · exact ih (fun y hy => hsil y (by simp [hy])) _ o ho i
 
 end wbCrossbar
+
+/-! ## `AXILiteCrossbar` / `AXICrossbar`: `timeout_cycles` is ignored as well -/
+
+section axCrossbar
+open Axi
+
+theorem axl_crossbar_ignores_timeout (c : Axi.Cfg) (t1 t2 : Option Nat) :
+    XbarW.machine { c with t := t1 } = XbarW.machine { c with t := t2 } ∧
+    XbarR.machine { c with t := t1 } = XbarR.machine { c with t := t2 } := ⟨rfl, rfl⟩
+
+/-- Negative witness (any state, any configuration, any `timeout_cycles`): while no slave raises a ready or a
+    valid, no master of an AXI(-Lite) crossbar sees one, and there is no error signal — a request to a silent or
+    unmapped slave is never terminated. -/
+theorem axl_crossbar_silent_slave_hangs (c : Axi.Cfg) (s : XState) :
+    (∀ (x : WBusIn), (∀ j, (x.ss j).awr = false ∧ (x.ss j).wr = false ∧ (x.ss j).bv = false) → ∀ i,
+      ((XbarW.out c s x).toM i).awr = false ∧ ((XbarW.out c s x).toM i).wr = false ∧
+      ((XbarW.out c s x).toM i).bv = false ∧ (XbarW.out c s x).error = false) ∧
+    (∀ (x : RBusIn), (∀ j, (x.ss j).arr = false ∧ (x.ss j).rv = false) → ∀ i,
+      ((XbarR.out c s x).toM i).arr = false ∧ ((XbarR.out c s x).toM i).rv = false ∧
+      (XbarR.out c s x).error = false) := by
+  constructor
+  · intro x h i
+    exact ⟨Wb.orAll_false (fun j => by simp [XbarW.acc, (h j).1]),
+           Wb.orAll_false (fun j => by simp [XbarW.acc, (h j).2.1]),
+           Wb.orAll_false (fun j => by simp [XbarW.acc, (h j).2.2]), rfl⟩
+  · intro x h i
+    exact ⟨Wb.orAll_false (fun j => by simp [XbarR.acc, (h j).1]),
+           Wb.orAll_false (fun j => by simp [XbarR.acc, (h j).2]), rfl⟩
+
+/-- As a statement about whole runs from reset (reads; writes are analogous): silent slaves, any requests, any
+    length — nobody ever sees `ar.ready` or `r.valid`. -/
+theorem axl_crossbar_hangs_forever (c : Axi.Cfg) (xs : List RBusIn)
+    (hsil : ∀ x ∈ xs, ∀ j, (x.ss j).arr = false ∧ (x.ss j).rv = false) :
+    ∀ o ∈ (XbarR.machine c).trace xs, ∀ i, (o.toM i).arr = false ∧ (o.toM i).rv = false := by
+  unfold Machine.trace
+  generalize (XbarR.machine c).init = s
+  induction xs generalizing s with
+  | nil => intro o ho; simp [Machine.traceFrom] at ho
+  | cons x xs ih =>
+    intro o ho i
+    simp only [Machine.traceFrom, List.mem_cons] at ho
+    rcases ho with rfl | ho
+    · have := (axl_crossbar_silent_slave_hangs c s).2 x (hsil x (by simp)) i
+      exact ⟨this.1, this.2.1⟩
+    · exact ih (fun y hy => hsil y (by simp [hy])) _ o ho i
+
+end axCrossbar
 
 end Litex.C11
